@@ -148,6 +148,15 @@ fn run_lex_only(src: &str) -> J {
     json!({"tokens": n, "lex_errors": lex.errors.diagnostics.len(), "bad_spans": bad})
 }
 
+/// Lexer + parser only (no checker, no rendering): long runs of tokens the parser has to recover from.
+fn run_parse_only(src: &str) -> J {
+    let arena = Arena::new(1 << 30).unwrap();
+    let lexer = Lexer::new(src, &arena);
+    let mut parser = Parser::new(lexer, &arena);
+    let (root, perr) = parser.parse_program();
+    json!({"stmts": root.stmts.len(), "errors": perr.diagnostics.len()})
+}
+
 pub fn worker() {
     let mut out = response_channel();
     quiet_panics();
@@ -169,6 +178,7 @@ pub fn worker() {
                 "front" => run(&src),
                 "rendertext" => run_render_text(&src),
                 "lex" => run_lex_only(&src),
+                "parse" => run_parse_only(&src),
                 _ => run_render_anyway(&src),
             });
             let mut r = match res {
